@@ -40,7 +40,11 @@ func (r *rw) expr(e ast.Expr) ast.Expr {
 		r.needShim = true
 		return &ast.StarExpr{X: &ast.IndexExpr{X: sel("vsched", "Chan"), Index: r.expr(x.Value)}}
 	case *ast.UnaryExpr:
-		x.X = r.expr(x.X)
+		if x.Op == token.ARROW {
+			x.X = r.recvChanExpr(x.X)
+		} else {
+			x.X = r.expr(x.X)
+		}
 		if x.Op == token.ARROW {
 			r.needShim = true
 			return call(&ast.SelectorExpr{X: paren(x.X), Sel: ast.NewIdent("Recv")})
@@ -83,6 +87,10 @@ func (r *rw) expr(e ast.Expr) ast.Expr {
 			case "time.Timer", "time.Ticker":
 				r.needShim = true
 				return sel("vsched", x.Sel.Name)
+			case "context.WithCancel", "context.WithTimeout", "context.WithDeadline":
+				// cancellation and deadlines become visible to the scheduler (virtual clock)
+				r.needShim = true
+				return sel("vsched", "Ctx"+x.Sel.Name)
 			case "io.Pipe":
 				r.needShim = true
 				return sel("vsched", "Pipe")
@@ -375,6 +383,12 @@ func (r *rw) recvChanExpr(e ast.Expr) ast.Expr {
 		if s, ok := c.Fun.(*ast.SelectorExpr); ok {
 			if id, ok := s.X.(*ast.Ident); ok && id.Name == "time" && s.Sel.Name == "After" && len(c.Args) == 1 {
 				return call(sel("vsched", "TimeAfterEphemeral"), r.expr(c.Args[0]))
+			}
+			// <-ctx.Done(): a receive from a context's Done channel (nothing else that is received
+			// from has a parameterless Done method) goes through the scheduler's view of the context
+			if s.Sel.Name == "Done" && len(c.Args) == 0 {
+				r.needShim = true
+				return call(sel("vsched", "CtxDone"), r.expr(s.X))
 			}
 		}
 	}
